@@ -8,7 +8,9 @@
 (*                     the ResponseStrategy), SelectHandler (endpoint_     *)
 (*                     utils' copy fixes which `case` gets the strategy-   *)
 (*                     based return) - in either order;                    *)
-(*   stage "match"     the emitted `match response.status_code`: one       *)
+(*   stage "match"     LoadFails when the emitted module is not valid      *)
+(*                     Python; else the emitted `match response.status_    *)
+(*                     code`: one                                          *)
 (*                     action per kind of case (CasePrimary, CaseSecondary,*)
 (*                     CaseDefault);                                       *)
 (*   stage "extract"   one action per kind of emitted extraction           *)
@@ -32,7 +34,7 @@ EXTENDS Reply, Json
 
 CONSTANTS MaxDecl, Level, Variant, Emit
 
-VARIABLES sc,       \* the scenario [served, cell, others]
+VARIABLES sc,       \* the scenario [served, cell, others, sib]
           body,     \* what the server sends
           stage, sig, hdl, branch, outcome
 vars == <<sc, body, stage, sig, hdl, branch, outcome>>
@@ -66,17 +68,25 @@ Strat == IF Variant = "fixed" THEN FixedStrategy(D[sc.served]) ELSE Strategy(D[s
 Go(b) == branch' = b /\ stage' = "extract" /\ UNCHANGED <<sc, body, sig, hdl, outcome>>
 Finish(o) == outcome' = o /\ stage' = "done" /\ UNCHANGED <<sc, body, sig, hdl, branch>>
 
+\* the emitted endpoint module is not valid Python: nothing can be called
+LoadFails ==
+  /\ stage = "match" /\ Unimportable(Variant, D)
+  /\ Finish(Raised("SyntaxError"))
+
+Loaded == stage = "match" /\ ~Unimportable(Variant, D)
+Imp == CattrsImported(Variant, D, sc.sib)
+
 \* `case <primary>:` - the strategy-based return
 CasePrimary ==
-  /\ stage = "match" /\ (Variant = "fixed" \/ (sc.served = hdl /\ hdl # "default"))
+  /\ Loaded /\ (Variant = "fixed" \/ (sc.served = hdl /\ hdl # "default"))
   /\ Go("strategy")
 \* `case <other 2xx>:` - resolved per response, always through response.json()
 CaseSecondary ==
-  /\ stage = "match" /\ Variant # "fixed" /\ sc.served # hdl /\ sc.served # "default"
+  /\ Loaded /\ Variant # "fixed" /\ sc.served # hdl /\ sc.served # "default"
   /\ Go("secondary")
 \* `case _:  # Default response`
 CaseDefault ==
-  /\ stage = "match" /\ Variant # "fixed" /\ sc.served = "default"
+  /\ Loaded /\ Variant # "fixed" /\ sc.served = "default"
   /\ Go("default")
 
 \* the strategy a branch extracts with
@@ -93,12 +103,12 @@ Extract(kinds, o) ==
 ReturnNone        == stage = "extract" /\ Extract({"none"}, Returned("none", NoTree))
 StreamBytes       == stage = "extract" /\ Extract({"aiter_bytes"}, IterBytes(body))
 StreamSseJson     == stage = "extract" /\ Extract({"aiter_json"}, IterSseJson(body))
-ContentTypeSwitch == stage = "extract" /\ Extract({"switch"}, StrategyReturn(BranchStrategy, body))
+ContentTypeSwitch == stage = "extract" /\ Extract({"switch"}, StrategyReturn(Imp, BranchStrategy, body))
 \* (each action starts with its own stage guard so that TLC's coverage keeps the action's name)
 StructureJson     == /\ stage = "extract" /\ UsesCattrs(BranchStrategy.ty)
-                     /\ Extract({"type"}, FromJson(BranchStrategy.ty, body))
+                     /\ Extract({"type"}, FromJson(Imp, BranchStrategy.ty, body))
 CastJson          == /\ stage = "extract" /\ ~UsesCattrs(BranchStrategy.ty)
-                     /\ Extract({"type"}, FromJson(BranchStrategy.ty, body))
+                     /\ Extract({"type"}, FromJson(Imp, BranchStrategy.ty, body))
 ReturnText        == stage = "extract" /\ Extract({"text"}, Returned("str", ServedText(body)))
 StreamRecords     == stage = "extract" /\ Extract({"aiter_records"}, IterRecords(BranchStrategy.ty, body))
 RaiseDefault      == stage = "extract" /\ DefaultRaises /\ Finish(Raised("HTTPError"))
@@ -111,10 +121,10 @@ Judge ==
   /\ stage' = "judged" /\ UNCHANGED <<sc, body, sig, hdl, branch, outcome>>
   /\ LET fs == Failures(TheCtx, body, TheAnn, outcome)
      IN  (Emit /\ fs # {}) =>
-           PrintT("DESIGN " \o ToJson([served |-> sc.served, others |-> SetToSeq(sc.others), c |-> sc.cell.c, sh |-> sc.cell.sh,
+           PrintT("DESIGN " \o ToJson([sib |-> sc.sib, served |-> sc.served, others |-> SetToSeq(sc.others), c |-> sc.cell.c, sh |-> sc.cell.sh,
                                        ct |-> body.ct, var |-> body.var, kind |-> outcome.kind, fails |-> SetToSeq(fs)]))
 
-Next == \/ SelectSignature \/ SelectHandler
+Next == \/ SelectSignature \/ SelectHandler \/ LoadFails
         \/ CasePrimary \/ CaseSecondary \/ CaseDefault
         \/ ReturnNone \/ StreamBytes \/ StreamSseJson \/ ContentTypeSwitch \/ StructureJson \/ CastJson
         \/ ReturnText \/ StreamRecords \/ RaiseDefault
@@ -134,12 +144,12 @@ TypeOK ==
   /\ (Finished <=> outcome.kind # "none")
 
 \* the machine's actions compose to the constant-level function the trace monitor compares the real code with
-MachineIsModel == Finished => outcome = ModelOutcome(Variant, D, sc.served, body)
+MachineIsModel == Finished => outcome = ModelOutcome(Variant, D, sc.sib, sc.served, body)
 
 \* both copies of the selection logic pick the same response (signature and handler agree)
 SelectionsAgree == (sig # Unset /\ hdl # Unset) => sig = hdl
 \* ... and it is the response the documented priority names
-SelectionIsDocumented == (sig # Unset) => sig = PrimaryBy(<<"200", "201", "202", "204">>, D)
+SelectionIsDocumented == (sig # Unset) => sig = PrimaryBy(DocOrder, D)
 
 \* the judge and the property as stated are the same predicate
 JudgeAgrees == Finished => (Holds(TheCtx, body, TheAnn, outcome) <=> Failures(TheCtx, body, TheAnn, outcome) = {})
